@@ -221,8 +221,12 @@ func replayScenarios(c *core.Ctx, rng *rand.Rand, bin, root string, nextID *int)
 	core.Parallel(len(keys), func(i int) {
 		k := keys[i]
 		lim := limit
-		if k[2] != 0 && k[0] >= 5 && !core.Thorough(c) {
-			lim = 12 // runs that fail are validated with the full search of Trace_PipelineSteps: few of the long ones
+		if k[2] != 0 {
+			// runs that fail are validated with the full search of Trace_PipelineSteps: fewer of them, few of the long ones
+			lim = c.Pick(40, 60)
+			if k[0] >= 5 {
+				lim = c.Pick(12, 30)
+			}
 		}
 		orderSets[i], okSets[i] = modelOrders(c, rand.New(rand.NewSource(c.Seed+int64(i))), k[0], k[1], k[2], k[3], lim)
 	})
